@@ -40,16 +40,17 @@ type Op struct {
 	Addrs int `json:"addrs,omitempty"` // resolve: 0=A 1=B 2=C 3=empty
 	Cfg   int `json:"cfg,omitempty"`   // resolve: 0=case config 1=nil 2=foreign type 3=alternative config
 
-	Sel   int  `json:"sel,omitempty"`   // state: 0=pool slot 1=replacement 2=removed conn 3=never-seen conn 4=replacement of the home slot of Key 5=home slot of Key 6=stand-in slot of Key
-	Idx   int  `json:"idx,omitempty"`   // state/adv: index; done/cancel: call index (-1 = most recent)
-	St    int  `json:"st,omitempty"`    // state: connectivity.State value
-	Pk    int  `json:"pk,omitempty"`    // pick: 0 = most recent picker, n>0 = stale picker (n-1) mod population
-	M     int  `json:"m,omitempty"`     // pick: method index into Methods
-	Key   int  `json:"key,omitempty"`   // pick: request key index into Keys
-	KeyOf int  `json:"keyof,omitempty"` // pick: !=0: use a key bound to the channel of the most recent outstanding call, if there is one
-	Msg   int  `json:"msg,omitempty"`   // pick: 0 normal, 1 nil message, 2 empty list / empty key, 3 nil pointer message, 4 non-struct message, 5 struct with a nil embedded message pointer
-	NoIC  bool `json:"noic,omitempty"`  // pick: context without the interceptor value
-	DlMs  int  `json:"dlms,omitempty"`  // pick: deadline in ms (0 = none)
+	Sel   int  `json:"sel,omitempty"`     // state: 0=pool slot 1=replacement 2=removed conn 3=never-seen conn 4=replacement of the home slot of Key 5=home slot of Key 6=stand-in slot of Key
+	Idx   int  `json:"idx,omitempty"`     // state/adv: index; done/cancel: call index (-1 = most recent)
+	St    int  `json:"st,omitempty"`      // state: connectivity.State value
+	Pk    int  `json:"pk,omitempty"`      // pick: 0 = most recent picker, n>0 = stale picker (n-1) mod population
+	M     int  `json:"m,omitempty"`       // pick: method index into Methods
+	Key   int  `json:"key,omitempty"`     // pick: request key index into Keys
+	KeyOf int  `json:"keyof,omitempty"`   // pick: !=0: use a key bound to the channel of the most recent outstanding call, if there is one
+	Msg   int  `json:"msg,omitempty"`     // pick: 0 normal, 1 nil message, 2 empty list / empty key, 3 nil pointer message, 4 non-struct message, 5 struct with a nil embedded message pointer
+	NoIC  bool `json:"noic,omitempty"`    // pick: context without the interceptor value
+	DlMs  int  `json:"dlms,omitempty"`    // pick: deadline in ms (0 = none)
+	Exp   bool `json:"expired,omitempty"` // pick: the context has already ended when the pick is issued (deadline in the past)
 
 	Out   int   `json:"out,omitempty"`   // done: 0 ok 1 Unavailable 2 client-side DEADLINE_EXCEEDED text 3 DEADLINE_EXCEEDED other text 4 raw context.DeadlineExceeded 5 Canceled
 	Rep   int   `json:"rep,omitempty"`   // done: 0 = the response of a BIND carries the request's key, 1 = it carries Reply (possibly empty)
